@@ -18,6 +18,12 @@ NOT_APPLICABLE = {
 }
 
 CHECKS = {
+    "C18": {
+        "level_text": "Proof of the per-function contracts the property rests on (clone shares the Arc, new mocks do not; slot cursor frame; finish is the identity) and of a permutation lemma over those contracts. Partial, with a large trusted base: map semantics, TypeId injectivity, and the append-to-existing-method path are not discharged.",
+        "design_ref": "DESIGN.md §4 C18",
+        "level_note": "Trusted: BTreeMap keyed by TypeId, TypeId::of injectivity, Kani/CBMC, Verus/Z3.",
+        "technique": "function contracts: Kani contract harnesses (clone / assembler) + Verus permutation lemma over the contracts",
+    },
     "C07": {
         "level_text": "Proof over all flag combinations for unmentioned methods (loop-free, complete); the mentioned-but-unmatched case is bounded in the number of patterns (reported as bounded). Partial: only the runtime decision (eval_dyn); the generated arms that act on the decision are not covered.",
         "design_ref": "DESIGN.md §4 C07",
